@@ -95,6 +95,8 @@ def class_decls(tbl):
         for p, t in props:
             out.append("  public function put_%s($x) { $this->%s = $x; return 1; }" % (p, p))
             out.append("  public function get_%s() { return $this->%s; }" % (p, p))
+            out.append("  public function cat_%s($x) { $this->%s .= $x; return 1; }" % (p, p))
+            out.append("  public function poke_%s($o, $x) { $o->%s = $x; return 1; }" % (p, p))
             out.append("  public function chk_%s(%s$x) { return 1; }" % (p, (t + " ") if t else ""))
         out.append("}")
     return out
@@ -154,15 +156,26 @@ def op_lines(ops, emit, fs):
             n = len(items)
             out.append('try { %s %s } catch (Throwable $e) { %s }' % (st, " ".join(emit('"N"') for _ in range(n)), " ".join(emit('"X"') for _ in range(n))))
         elif o[0] == "write":
-            _, path, var, p, v = o
-            if (cls_of.get(var), p) in VIS:
+            path, var, p, v = o[1], o[2], o[3], o[4]
+            if (cls_of.get(var), p) in VIS and path != "poke":
                 path = "method"          # a non-public member: only the class's own method can write it
-            if path == "direct":
+            if path == "poke":
+                # written as `$other->p = $x` by a method running on ANOTHER instance (o[5]) of the same class
+                st = "$o%d->poke_%s($o%d, %s);" % (o[5], p, var, php_val(v))
+            elif path == "direct":
                 st = "$o%d->%s = %s;" % (var, p, php_val(v))
             elif path == "method":
                 st = "$o%d->put_%s(%s);" % (var, p, php_val(v))
             else:
                 st = '$nm = "%s"; $o%d->{$nm} = %s;' % (p, var, php_val(v))
+            out.append('try { %s %s } catch (Throwable $e) { %s }' % (st, emit('"A"'), emit('"R"')))
+        elif o[0] == "concat":
+            # `.=` on a declared member: first what it holds now (a read), then the compound assignment
+            _, path, var, p, v = o
+            nonpub = (cls_of.get(var), p) in VIS
+            rd = "$o%d->get_%s()" % (var, p) if nonpub else "$o%d->%s" % (var, p)
+            out.append('try { %s } catch (Throwable $e) { %s }' % (emit("tag(%s)" % rd), emit('"T"')))
+            st = "$o%d->cat_%s(%s);" % (var, p, php_val(v)) if (path == "method" or nonpub) else "$o%d->%s .= %s;" % (var, p, php_val(v))
             out.append('try { %s %s } catch (Throwable $e) { %s }' % (st, emit('"A"'), emit('"R"')))
         elif o[0] == "call":
             _, var, p, v = o
@@ -241,13 +254,29 @@ def coq_tbl(tbl):
     return coq_list(items)
 
 
-def coq_ops(ops):
+def obs_lines(out):
+    return [l for l in out.split("\n") if l != ""]
+
+
+def coq_ops(ops, lines=None):
+    """lines = the markers the script printed (needed for `.=`: the value stored is the string made of what the member
+    held — the read just before it, itself compared with the model — and the right-hand side)"""
     res = []
+    k = 0
     for o in ops:
+        k0 = k
+        k += len(o[2]) if o[0] == "nest" else 2 if o[0] == "concat" else 1
+        if o[0] == "concat":
+            old = lines[k0] if lines is not None and k0 < len(lines) else "null"
+            olds = "" if old == "null" else old[2:] if old[:2] in ("i:", "s:") else "?"
+            new = olds + (str(o[4][1]) if o[4][0] in ("i", "s") else "?")
+            res.append('ORead %d%%nat "%s"' % (o[2], o[3]))
+            res.append('OWrite %s %d%%nat "%s" (VStr %s)' % ("PMethod" if o[1] == "method" else "PDirect", o[2], o[3], coq_string(new)))
+            continue
         if o[0] == "new":
             res.append('ONew "%s" %s' % (o[2], coq_list(coq_cty(a) for a in o[3])))
         elif o[0] == "write":
-            pa = {"direct": "PDirect", "method": "PMethod", "dyn": "PDyn"}[o[1]]
+            pa = {"direct": "PDirect", "method": "PMethod", "dyn": "PDyn", "poke": "PMethod"}[o[1]]
             res.append('OWrite %s %d%%nat "%s" %s' % (pa, o[2], o[3], coq_val(o[4])))
         elif o[0] == "call":
             res.append('OCall %d%%nat "chk_%s" %s' % (o[1], o[2], coq_val(o[3])))
@@ -300,7 +329,8 @@ def props_typed_by_param(cls):
     return [p for p, t in cls[2] if t in cls[1]]
 
 
-def probe_all(tbl_by_name, live, rot, calls=True):
+def probe_all(tbl_by_name, live, rot, calls=True, extras=None):
+    extras = calls if extras is None else extras
     """stores of every value kind into every parameter-typed member of every live instance
     (paths rotate), each followed by a read"""
     ops = []
@@ -312,6 +342,19 @@ def probe_all(tbl_by_name, live, rot, calls=True):
                 ops.append(("write", PATHS[k % 3], var, p, v))
                 k += 1
             ops.append(("read", var, p))
+            if extras:
+                # `.=` with a string and an int on the member as it stands (a string results: only a string member takes it)
+                if args:
+                    ops.append(("concat", "direct" if k % 2 else "method", var, p, ("s", "c")))
+                    ops.append(("concat", "method" if k % 2 else "direct", var, p, ("i", 1)))
+                    ops.append(("read", var, p))
+                # written from a method running on ANOTHER live instance of the same class
+                others = [w for w, wc, wa in live if wc == cls and w != var]
+                if others:
+                    wsel = others[k % len(others)]
+                    for v in (VALS[k % 7], VALS[(k + 3) % 7], matching_value(args[0]) if args and args[0] in ARGS_X else VALS[1]):
+                        ops.append(("write", "poke", var, p, v, wsel))
+                    ops.append(("read", var, p))
             for v in (VALS if calls else []):
                 if v[0] != "n":           # null into a typed parameter is the recorded finding: probed separately
                     ops.append(("call", var, p, v))
@@ -336,7 +379,7 @@ def enumerated(tier):
             elif w == 2:
                 ops.append(("write", PATHS[(j + 1) % 3], j, "v", other_value(arg)))
         # quick tier: the 4096 histories of length 4 are probed with stores only (calls: lengths 1-3, enumc, seeded)
-        ops += probe_all(byn, live, len(events), calls=(tier != "quick" or len(events) < 4))
+        ops += probe_all(byn, live, len(events), calls=(tier != "quick" or len(events) < 4), extras=(len(events) <= 2 or (tier != "quick" and len(events) == 3)))
         return {"tbl": tbl, "ops": ops, "gen": "enum%d" % len(events)}
     for n in (1, 2, 3):
         for ev in itertools.product([(a, w) for a in ARGS for w in (0, 1, 2)], repeat=n):
@@ -584,6 +627,8 @@ def op_key(o):
         return o[0]
     if o[0] == "nest":
         return "nest:%s:%d" % (o[1], len(o[2]))
+    if o[0] == "concat":
+        return "concat:%s:%s" % (o[1], o[4][0])
     if o[0] == "newc":
         return "newc:%s" % o[4][0]
     if o[0] == "write":
@@ -597,7 +642,7 @@ def op_at(ops, pos):
     """the generated operation that produced observation number pos (a nest op produces one per instance)"""
     k = 0
     for o in ops:
-        k += len(o[2]) if o[0] == "nest" else 1
+        k += len(o[2]) if o[0] == "nest" else 2 if o[0] == "concat" else 1
         if pos is not None and pos < k:
             return o
     return None
@@ -606,7 +651,7 @@ def op_at(ops, pos):
 def norm_op(o):
     """JSON round trip: value pairs back to tuples"""
     o = list(o)
-    vi = {"write": 4, "newc": 4, "call": 3}.get(o[0])
+    vi = {"write": 4, "newc": 4, "call": 3, "concat": 4}.get(o[0])
     if vi is not None:
         o[vi] = tuple(o[vi])
     return tuple(o)
@@ -714,7 +759,7 @@ def main(ck):
             ck.violation("impl-error:%s" % o["outcome"], {"case": c, "impl_out": o, "script": srcs[i],
                                                           "clause": "script did not run to completion / unknown marker"})
             continue
-        terms.append("(%s, %s, %s)" % (coq_tbl(c["tbl"]), coq_ops(c["ops"]), coq_list(seen)))
+        terms.append("(%s, %s, %s)" % (coq_tbl(c["tbl"]), coq_ops(c["ops"], obs_lines(o["out"])), coq_list(seen)))
         idx.append(i)
     bad = ck.eval_cases("cases", HEADER, terms, "check_case", shard=500)
     NULLKEY = {"call:n": "member=method-param:n", "newc:n": "member=ctor-promoted:n"}
